@@ -1,5 +1,9 @@
 SPECIFICATION TraceSpec
-CONSTANT TraceFile = "trace.ndjson"
+CONSTANTS
+  TraceFile = "trace.ndjson"
+  CheckConformance = TRUE
+  MinDuration = 3600
+  MaxTries = 10
 INVARIANT Checked
 POSTCONDITION Consumed
 CHECK_DEADLOCK FALSE
